@@ -167,7 +167,7 @@ Theorem fwd_run_terminates p w entry delay desc use_asm asm init :
 Proof.
   intros OKi OKa. unfold fwd_run.
   apply (run_total env itv_ops (fun n e => tr_block (p_block p n) e) (p_preds p) (nest_of w) entry
-                   delay desc use_asm asm env_ok) with (R := fun _ => e_lt).
+                   delay desc use_asm asm init env_ok) with (R := fun _ => e_lt).
   - exact I.
   - exact env_ok_join.
   - exact env_ok_meet.
@@ -175,9 +175,9 @@ Proof.
   - exact env_ok_narrow.
   - intros n a. apply tr_block_ok.
   - exact OKa.
+  - exact OKi.
   - intros h. exact e_lt_wf.
   - intros h. exact e_widen_progress.
-  - exact OKi.
 Qed.
 
 (* every table entry of the answer satisfies the invariant *)
@@ -190,7 +190,7 @@ Proof.
   assert (S : SInv env env_ok e).
   { unfold fwd_run in H. revert H.
     apply (run_inv env itv_ops (fun n e => tr_block (p_block p n) e) (p_preds p) (nest_of w) entry
-                   delay desc use_asm asm env_ok).
+                   delay desc use_asm asm init env_ok).
     - exact I.
     - exact env_ok_join.
     - exact env_ok_meet.
@@ -221,7 +221,7 @@ Definition itv_ops_thr (t : nat -> thr) : aops env :=
 Definition fwd_run_thr (t : nat -> thr) (p : prog) (w : wto) (entry delay desc : nat) (use_asm : bool)
            (asm : nat -> option env) (fuel : nat) (init : env) : option (est env) :=
   run env (itv_ops_thr t) (fun n e => tr_block (p_block p n) e) (p_preds p) (nest_of w) entry
-      delay desc use_asm asm fuel w init.
+      delay desc use_asm asm init fuel w.
 
 Theorem fwd_run_thr_fuel_mono t p w entry delay desc use_asm asm init fuel fuel' e :
   fwd_run_thr t p w entry delay desc use_asm asm fuel init = Some e -> fuel <= fuel' ->
@@ -235,7 +235,7 @@ Theorem fwd_run_thr_terminates t p w entry delay desc use_asm asm init :
 Proof.
   intros WT OKi OKa. unfold fwd_run_thr.
   apply (run_total env (itv_ops_thr t) (fun n e => tr_block (p_block p n) e) (p_preds p) (nest_of w) entry
-                   delay desc use_asm asm env_ok) with (R := fun h => e_lt_thr (t h)).
+                   delay desc use_asm asm init env_ok) with (R := fun h => e_lt_thr (t h)).
   - exact I.
   - exact env_ok_join.
   - exact env_ok_meet.
@@ -243,9 +243,9 @@ Proof.
   - exact env_ok_narrow.
   - intros n a. apply tr_block_ok.
   - exact OKa.
+  - exact OKi.
   - intros h. apply e_lt_thr_wf.
   - intros h. apply e_widen_thr_progress. apply WT.
-  - exact OKi.
 Qed.
 
 (* ------------------------------------------------------------------ example: the loop
